@@ -967,6 +967,7 @@ from ..selftest import Seed, unparse_seed  # noqa: E402
 _P = "src/odfdo/paragraph.py"
 _EL = "src/odfdo/element.py"
 SEEDS = [
+    Seed("_insert_before_after takes the end of the first group", "fault", "src/odfdo/element.py", "sre.end()", "sre.end(sre.lastindex or 0)", "R09o"),
     Seed("Annotation.delete computes the tail flag of its end mark", "fault", "src/odfdo/note.py",
          "        if end:\n            end.delete()\n", "        if end:\n            end.delete(keep_tail=end.parent is self.parent)\n", "R09n"),
     Seed("Annotation.delete names the default tail flag", "neutral", "src/odfdo/note.py",
